@@ -94,6 +94,12 @@ CLAIMED = {
    design_ref="DESIGN.md 4.6, 5 (C15)",
    note="One accepted idiom (BTree_rangeSearch first-leaf successor under self->len >= 2).",
    technique="dominator / reachability checks and a NULL-ness dataflow on clang AST CFGs"),
+ "C06": dict(
+   category="other",
+   text="Agreement of the state codecs, decided from source: the facts that fix the shape of a node's serialized state (Py_BuildValue/PyArg_ParseTuple formats, tuple sizes, key/value/child layout order, reader length arithmetic, None for the empty tree, guard of the embedded single-leaf form) are extracted from the C writers and readers of all 22 translation units and from the six Python codec methods and compared with the common format; the 22x4 tp_name strings equal the names the Python class swap pickles under; resolved C slot types equal the Python struct formats; the Python native datatype stores normalised plain values. These are necessary conditions for 'each loads the other's pickles / byte-identical pickles'; byte identity over histories and pickle protocols, and float32 rounding of Python float values, are not decided.",
+   design_ref="DESIGN.md 4.8, 5 (C06)",
+   note="Known divergence outside the rules: Python float values keep the double (DESIGN.md section 9).",
+   technique="fact-table extraction from clang AST / Python ast and table agreement (writer = reader, C = Python)"),
 }
 
 NA_PENDING = "check not built yet (engine under construction); see DESIGN.md section 11"
